@@ -95,18 +95,23 @@ def c08():
     v = Verdict("C08", "model_checking", get_tier(),
                 "RowSel.tla enumerates every index column over {a,b,c} up to length MaxLen x every selector form (positions incl. -1, position lists, masks, "
                 "regex-as-name-set with ::count in {none,0,1,-1,2} and offsets {0,+1,-1}, name spans with open ends and ::count endpoints, value ranges on two "
-                "columns with open bounds, integer slices) and, for the composition law, pairs of selectors; each case is executed on a real Table in two "
-                "concretisations (list/ndarray, two regex spellings) and rows[...], rows[s1].rows[s2], rows.indices[...], rows.mask[...] are compared with Sel; "
+                "columns with open bounds, integer slices) and, for the composition law, pairs and triples of selectors (rows[s1, s2, s3]); each case is executed on a real Table in two "
+                "concretisations (list/ndarray, two regex spellings) and rows[...], rows[s1].rows[s2](.rows[s3]), rows.indices[...], rows.mask[...] are compared with Sel; "
                 "repeated under several PYTHONHASHSEED values. non-trivial = case whose result is non-empty and not the whole table")
     scratch = build.build("pure")
     singles, r1 = rs_cases("single", 5, 0)
     pairs, r2 = rs_cases("pair", 0, 3 if q else 4)
+    triples, r3 = rs_cases("triple", 0, 4 if q else 5)
+    rnd = __import__("random").Random(seed())
     if q:
-        rnd = __import__("random").Random(seed())
         pairs = [c for c in pairs if rnd.random() < 0.35]
+    ntri = len(triples)
+    keep = 12000 if q else 150000
+    if len(triples) > keep:
+        triples = rnd.sample(triples, keep)
     hs = (0, 1, 2, 3) if q else tuple(range(32))
     stats = collections.Counter()
-    for name, cases in (("single", singles), ("pair", pairs)):
+    for name, cases in (("single", singles), ("pair", pairs), ("triple", triples)):
         fails, st, samples = par.run_workers("harness.rowsel", {"cases": cases, "scratch": scratch}, 4 if q else 1, hashseeds=hs)
         stats.update(st)
         for s in samples[:2]:
@@ -118,8 +123,10 @@ def c08():
                         {"engine": "rowsel", "table": f["table"], "selectors": f["selectors"], "expected": f["expected"],
                          "variant": f["variant"], "hashseed": f["hashseed"], "detail": f["detail"]})
     v.add(stats["evaluations"])
-    v.set(states=r1.distinct + r2.distinct, transitions=r1.states + r2.states, traces_validated_against_impl=len(singles) + len(pairs),
-          distinct_nontrivial=stats["nontrivial"] // len(hs), single_cases=len(singles), pair_cases=len(pairs), hashseeds=list(hs),
+    v.set(states=r1.distinct + r2.distinct + r3.distinct, transitions=r1.states + r2.states + r3.states,
+          traces_validated_against_impl=len(singles) + len(pairs) + len(triples),
+          distinct_nontrivial=stats["nontrivial"] // len(hs), single_cases=len(singles), pair_cases=len(pairs), triple_cases_enumerated=ntri,
+          triple_cases_executed=len(triples), hashseeds=list(hs),
           exhaustive=not q)
     v.assume("regular expressions are the spellings of the binding table (alternation, character class, prefix, case flip); names contain no separators",
              "cases whose rows would land outside the table (offsets) are not demanded", "value ranges are enumerated as first selector only")
